@@ -603,6 +603,23 @@ func evalFailPrograms() []*Program {
 		// two failures in one round: the producer's error output makes the output unresolvable and
 		// releases a step whose input cannot be evaluated
 		two("evalwait", O("v", E("stringToInt($.input.s)")), func(p *Program) { p.Steps[1].WaitFor = E("$.steps.a.outputs") }),
+		// failing expressions under the optional / one-of tags (separate evaluation paths in the run loop)
+		two("evaloptout", O("v", I(1)), func(p *Program) {
+			p.Outputs = []Output{{"success", O("r", E(sv("a")), "p", Opt{true, "10 / $.input.n"}, "q", Opt{false, "$.input.l[1]"})}}
+		}),
+		two("evaloptout2", O("v", I(1)), func(p *Program) {
+			p.Outputs = []Output{{"success", O("r", E(sv("a")), "p", Opt{false, "10 % $.input.n"}, "q", Opt{true, "stringToInt($.input.s)"})}}
+		}),
+		two("evaloptin", O("v", I(1), "s", Opt{true, "intToString(10 / $.input.n)"}), nil),
+		two("evaloptin2", O("v", I(1), "s", Opt{false, "intToString(stringToInt($.input.s))"}), func(p *Program) { p.Steps[1].WaitFor = E("$.steps.a.outputs") }),
+		two("evaloptfn", O("v", I(1)), func(p *Program) {
+			p.Outputs = []Output{{"success", O("r", E(sv("a")), "p", Opt{true, "stringToInt($.steps.b.outputs.success.s)"})}}
+		}),
+		two("evaloneof", O("v", I(1)), func(p *Program) {
+			p.Outputs = []Output{{"success", O("r", OneOf{Disc: "kind", Opts: []Field{
+				{"ok", O("x", E("10 / $.input.n"), "y", E(sv("a")))},
+				{"bad", E("$.steps.a.outputs.error")}}})}}
+		}),
 		two("evalwait2", O("v", E("$.input.l[2]")), func(p *Program) {
 			p.Steps[1].WaitFor = E("$.steps.a.outputs")
 			p.Steps = append(p.Steps, Step{ID: "c", Input: O("v", E("10 / $.input.n")), WaitFor: E("$.steps.a.outputs")})
